@@ -13,7 +13,11 @@ theorem invR_step_1 {w s l s'} (h0 : Inv0 s) (ha : InvA w s) (hi : InvR s) (hs :
   | fRefLoad c rest d h hk hf => invR_auto
   | fForward c rest d n h hk hn => cases rest <;> invR_auto
   | fForwardPost c rest d h hk => cases rest <;> invR_auto
-  | fRetire c rest d n h hk => cases rest <;> invR_auto
+  | fEnter c rest d h hk hf => cases rest <;> invR_auto
+  | rRefLoad c h => invR_auto
+  | rRetire c n h =>
+      have he := erase_nil_or_two_le h
+      invR_auto
   | jInvoke c h => invR_auto
   | jDec c h => invR_auto
   | _ => simp [grpOf] at hg
